@@ -28,6 +28,7 @@
 #include <xercesc/dom/DOMImplementation.hpp>
 #include "DOMImplementationImpl.hpp"
 #include "DOMImplementationListImpl.hpp"
+#include <xercesc/util/VerifHooks.hpp>
 
 namespace XERCES_CPP_NAMESPACE {
 
@@ -62,10 +63,12 @@ DOMImplementation *DOMImplementationRegistry::getDOMImplementation(const XMLCh* 
     XMLMutexLock lock(gDOMImplSrcVectorMutex);
 
     XMLSize_t len = gDOMImplSrcVector->size();
+    VERIF_EVS("Acc", "rg_len", "obj,c,rw,val", 0, 0, 0, len);
 
     // Put our defined source there
     if (len == 0) {
         gDOMImplSrcVector->addElement((DOMImplementationSource*)DOMImplementationImpl::getDOMImplementationImpl());
+        VERIF_EVS("Acc", "rg_add", "obj,c,rw,val", 0, 0, 1, gDOMImplSrcVector->size());
 
         len = gDOMImplSrcVector->size();
     }
@@ -87,6 +90,7 @@ DOMImplementationList* DOMImplementationRegistry::getDOMImplementationList(const
     XMLMutexLock lock(gDOMImplSrcVectorMutex);
 
     XMLSize_t len = gDOMImplSrcVector->size();
+    VERIF_EVS("Acc", "rg_len", "obj,c,rw,val", 0, 0, 0, len);
 
     // Put our defined source there
     if (len == 0)
@@ -110,6 +114,7 @@ void DOMImplementationRegistry::addSource (DOMImplementationSource* source)
 {
     XMLMutexLock lock(gDOMImplSrcVectorMutex);
     gDOMImplSrcVector->addElement(source);
+    VERIF_EVS("Acc", "rg_add", "obj,c,rw,val", 0, 0, 1, gDOMImplSrcVector->size());
 }
 
 
